@@ -57,7 +57,8 @@ pub enum Exec {
 
 /// run the test cases with the chosen executor; work and temp directory inside `scratch`
 pub fn execute(exec: Exec, testcases: &[TestCase], config: DocumentConfig, scratch: &Scratch) -> Result<Vec<Output>, ExecutionError> {
-    let work = scratch.sub("work");
+    // nested, so that a few `cd ..` in a test stay inside the private scratch directory
+    let work = scratch.sub("n1/n2/n3/work");
     let tmp = scratch.sub("tmp");
     let ctx = ContextBuilder::default()
         .work_directory(work)
